@@ -516,5 +516,14 @@ def summarize(interp, run):
             a['detail'] = r['detail']
     for k, a in agg.items():
         a['id'] = '%s|%s|%s' % (a['kind'], a['function'], a['name'])
+        if not a['ok'] and a['kind'] in ('post', 'returns', 'invariant'):
+            # a clause that is not established in a routine one of whose loops is steered by a flag carried across
+            # iterations: the fact the flag stands for is outside the domain (Function.flag_loops), not a verdict
+            f = interp.mod.fn(a['function'])
+            fl = f.flag_loops() if f is not None and not f.decl else []
+            if fl:
+                L, ph = fl[0]
+                a['flagloop'] = '%s: the loop at %s is steered by the flag %s computed in the previous iteration' % (
+                    f.srcname or f.name, L['header'].term.where(), ph.name or ph.id)
         out.append(a)
     return out
